@@ -43,8 +43,21 @@ Definition vkind_eqb (a b : vkind) : bool :=
 Definition fld_same (f f' : fld) : bool :=
   String.eqb (fwire f) (fwire f') && pty_eqb (ftype f) (ftype f') && vkind_eqb (fval f) (fval f') && Bool.eqb (fvalopt f) (fvalopt f').
 
+(* Optional[...] stripped: the type a NON-NULL value of t is valid for *)
+Definition strip (t : pty) : pty :=
+  match t with
+  | PyUnion l => match filter (fun x => negb (is_none x)) l with [x] => x | l' => PyUnion l' end
+  | _ => t end.
+(* an attribute f of class c may stand for the attribute f' of class c' (same wire name): same type and the null permission carries
+   over, or — when c does not allow an explicit null at this member — the same type up to Optional[...] *)
+Definition fld_compat (nl nl' : bool) (f f' : fld) : bool :=
+  String.eqb (fwire f) (fwire f') && vkind_eqb (fval f) (fval f') &&
+  ((pty_eqb (ftype f) (ftype f') && Bool.eqb (fvalopt f) (fvalopt f') && implb nl nl')
+   || (negb nl && pty_eqb (strip (ftype f)) (strip (ftype f')))).
+
 Section Chk.
 Variable Sg : sigma.
+Variable NL : string -> string -> bool.
 Variable GC : list string.
 Variable GU : list pty.
 
@@ -54,8 +67,8 @@ Definition leaf_is (o : option hret) (p : hret -> bool) : bool := match o with S
 
 (* what may follow from knowing that the keys in [pres] are present and the keys in [abs] are absent, for an object valid at class fs:
    it is valid at class fs' as well *)
-Definition compat (fs fs' : list fld) (pres abs : list string) : bool :=
-  forallb (fun f => mem (fwire f) abs || existsb (fld_same f) fs') fs
+Definition compat (c c' : string) (fs fs' : list fld) (pres abs : list string) : bool :=
+  forallb (fun f => mem (fwire f) abs || existsb (fld_compat (NL c (fwire f)) (NL c' (fwire f)) f) fs') fs
   && forallb (fun f' => negb (must_present Sg f') || mem (fwire f') pres) fs'.
 
 Definition consistent (fs : list fld) (P S : list string) : bool :=
@@ -72,7 +85,7 @@ Definition cls_member_ok (ms : list pty) (h : hook) (c : string) : bool :=
        | Some (RStruct HObj (PyCls c')) =>
            existsb (pty_eqb (PyCls c')) ms && mem c' GC &&
            match lookup_cls Sg c' with
-           | Some fs' => compat fs fs' (filter (fun k => existsb (fun f => String.eqb (fwire f) k && must_present Sg f) fs) (map fwire fs) ++ S)
+           | Some fs' => compat c c' fs fs' (filter (fun k => existsb (fun f => String.eqb (fwire f) k && must_present Sg f) fs) (map fwire fs) ++ S)
                                        (filter (fun k => negb (mem k S)) P)
            | None => false end
        | _ => false end) (subseqs P)
@@ -122,12 +135,13 @@ Proof. rewrite existsb_exists. intros [x [I E]]. apply pty_eqb_eq in E. subst. e
 Section Sound.
 Variable Sg : sigma.
 Variable py_str : json -> string.
+Variable NL : string -> string -> bool.
 Variable GC : list string.
 Variable GU : list pty.
 Notation structure := (structure Sg py_str).
 Notation has_type := (has_type Sg).
 Notation den := (den Sg).
-Notation pvalid := (pvalid Sg).
+Notation pvalid := (pvalid Sg NL).
 Notation Good := (Good Sg py_str).
 
 Lemma is_hobj_eq e : is_hobj e = true -> e = HObj.
@@ -184,7 +198,30 @@ Proof. destruct r; try discriminate; destruct e; try discriminate; reflexivity. 
 Lemma jvalidate_same f f' v : fval f = fval f' -> fvalopt f = fvalopt f' -> jvalidate f v = jvalidate f' v.
 Proof. unfold jvalidate. intros -> ->. reflexivity. Qed.
 
-Theorem hook_ok_sound ms h : hook_ok Sg GC GU ms h = true -> HookOK Sg py_str GC GU ms h.
+Lemma strip_down t v : pvalid t v -> v <> JNull -> pvalid (strip t) v.
+Proof.
+  intros V N. destruct t; try exact V. cbn [strip].
+  inversion V as [| | | | | | | | | | | | | |ms0 x j0 Ix Vx]; subst.
+  assert (Ix' : In x (filter (fun x => negb (is_none x)) l)).
+  { apply filter_In. split; [exact Ix|]. destruct x; try reflexivity. inversion Vx; subst. contradiction. }
+  destruct (filter (fun x => negb (is_none x)) l) as [|y [|z r]] eqn:F.
+  - contradiction.
+  - destruct Ix' as [<-|[]]. exact Vx.
+  - eapply pv_union; [exact Ix' | exact Vx].
+Qed.
+Lemma strip_up t v : pvalid (strip t) v -> pvalid t v.
+Proof.
+  destruct t; try (intros V; exact V). cbn [strip].
+  destruct (filter (fun x => negb (is_none x)) l) as [|y [|z r]] eqn:F; intros V.
+  - inversion V as [| | | | | | | | | | | | | |ms0 x j0 Ix Vx]; subst. contradiction.
+  - assert (Iy : In y l). { assert (I : In y (filter (fun x => negb (is_none x)) l)) by (rewrite F; left; reflexivity). apply filter_In in I. tauto. }
+    eapply pv_union; [exact Iy | exact V].
+  - inversion V as [| | | | | | | | | | | | | |ms0 x j0 Ix Vx]; subst. rewrite <- F in Ix. apply filter_In in Ix. eapply pv_union; [exact (proj1 Ix) | exact Vx].
+Qed.
+Lemma jvalidate_nonnull f f' v : v <> JNull -> fval f = fval f' -> jvalidate f v = jvalidate f' v.
+Proof. intros N E. unfold jvalidate. rewrite E. destruct v; try reflexivity. contradiction. Qed.
+
+Theorem hook_ok_sound ms h : hook_ok Sg NL GC GU ms h = true -> HookOK Sg py_str NL GC GU ms h.
 Proof.
   unfold hook_ok, HookOK. intros H j V SUB A. apply andb_true_iff in H. destruct H as [_ HM]. rewrite forallb_forall in HM.
   inversion V as [| | | | | | | | | | | | | |ms0 t j0 It Vt]; subst ms0 j0. specialize (HM t It).
@@ -254,13 +291,23 @@ Proof.
     { cbn [shape_of]. rewrite <- LF. apply sleaf_ext. intros k Ik. fold K. symmetry. apply memS. exact Ik. }
     assert (V' : pvalid (PyCls c') (JObj m)).
     { eapply pv_cls; [exact L' | exact ND | |].
-      - intros k v I. destruct (Hp k v I) as [f [If [Ef [Pf Jf]]]]. specialize (C1 f If). apply orb_true_iff in C1. destruct C1 as [C1|C1].
+      - intros k v I. destruct (Hp k v I) as [f [If [Ef [Pf [Jf Nf]]]]]. specialize (C1 f If). apply orb_true_iff in C1. destruct C1 as [C1|C1].
         + exfalso. rewrite mem_filter in C1; [|intros a b E; apply String.eqb_eq in E; subst; reflexivity]. apply andb_true_iff in C1. destruct C1 as [C1 C1'].
           rewrite Ef in C1, C1'. apply mem_in in C1. rewrite (memS k C1) in C1'. assert (mem k K = true). { apply mem_in. unfold K, keys. apply in_map_iff. exists (k, v). auto. }
           rewrite H in C1'. discriminate.
-        + apply existsb_exists in C1. destruct C1 as [f' [If' Sf]]. unfold fld_same in Sf. repeat (apply andb_true_iff in Sf; destruct Sf as [Sf ?]).
-          apply String.eqb_eq in Sf. apply pty_eqb_eq in H1. apply vkind_eqb_eq in H0. apply Bool.eqb_prop in H.
-          exists f'. split; [exact If'|]. split; [congruence|]. split; [rewrite <- H1; exact Pf | rewrite <- (jvalidate_same f f' v H0 H); exact Jf].
+        + apply existsb_exists in C1. destruct C1 as [f' [If' Sf]]. unfold fld_compat in Sf.
+          apply andb_true_iff in Sf. destruct Sf as [Sf ALT]. apply andb_true_iff in Sf. destruct Sf as [Sw Sv].
+          apply String.eqb_eq in Sw. apply vkind_eqb_eq in Sv. rewrite Ef in ALT.
+          exists f'. split; [exact If'|]. split; [congruence|].
+          apply orb_true_iff in ALT. destruct ALT as [ALT|ALT].
+          * apply andb_true_iff in ALT. destruct ALT as [ALT IM]. apply andb_true_iff in ALT. destruct ALT as [ET EO].
+            apply pty_eqb_eq in ET. apply Bool.eqb_prop in EO.
+            split; [rewrite <- ET; exact Pf|]. split; [rewrite <- (jvalidate_same f f' v Sv EO); exact Jf|].
+            intros EN. specialize (Nf EN). rewrite Nf in IM. exact IM.
+          * apply andb_true_iff in ALT. destruct ALT as [NLF ES]. apply negb_true_iff in NLF. apply pty_eqb_eq in ES.
+            assert (NN : v <> JNull) by (intros EN; specialize (Nf EN); congruence).
+            split; [apply strip_up; rewrite <- ES; apply strip_down; assumption|].
+            split; [rewrite <- (jvalidate_nonnull f f' v NN Sv); exact Jf | intros EN; contradiction].
       - intros f' If' Mf'. specialize (C2 f' If'). rewrite Mf' in C2. cbn in C2. apply mem_in in C2. apply in_app_or in C2. destruct C2 as [C2|C2].
         + apply filter_In in C2. destruct C2 as [_ C2]. apply existsb_exists in C2. destruct C2 as [f [If Ef]]. apply andb_true_iff in Ef. destruct Ef as [E1 E2].
           apply String.eqb_eq in E1. rewrite <- E1. apply Hr; assumption.
@@ -277,11 +324,12 @@ End Sound.
 Section Covered.
 Variable Sg : sigma.
 Variable py_str : json -> string.
+Variable NL : string -> string -> bool.
 Variable GC : list string.
 Variable GU : list pty.
 
-Lemma hooks_ok_sound : hooks_ok Sg GC GU = true ->
-  forall ms h, existsb (pty_eqb (PyUnion ms)) GU = true -> lookup_uhook Sg (PyUnion ms) = Some h -> HookOK Sg py_str GC GU ms h.
+Lemma hooks_ok_sound : hooks_ok Sg NL GC GU = true ->
+  forall ms h, existsb (pty_eqb (PyUnion ms)) GU = true -> lookup_uhook Sg (PyUnion ms) = Some h -> HookOK Sg py_str NL GC GU ms h.
 Proof.
   unfold hooks_ok. intros H ms h E L. rewrite forallb_forall in H. apply existsb_pty_in in E. specialize (H _ E). cbn beta iota in H.
   rewrite L in H. apply hook_ok_sound. exact H.
@@ -290,24 +338,25 @@ Qed.
 (* THE PARSE / ROUND-TRIP THEOREM for the covered part of a package table:
    if the two boolean checks hold, every Python-valid JSON value of every covered annotation is structured (with enough fuel) into a value
    of that annotation's type, which serialises back to the input up to null-valued members. *)
-Theorem covered_roundtrip : table_ok Sg GC GU = true -> hooks_ok Sg GC GU = true ->
-  forall P j, okty Sg GC GU P = true -> pvalid Sg P j ->
+Theorem covered_roundtrip : table_ok Sg GC GU = true -> hooks_ok Sg NL GC GU = true ->
+  forall P j, okty Sg GC GU P = true -> pvalid Sg NL P j ->
   exists n o j', structure Sg py_str n P j = Ok o /\ has_type Sg P o /\ unstr Sg n (Some P) o = Ok j' /\ NEq j j'.
 Proof.
   intros T H P j O V. destruct (table_ok_sound Sg py_str GC GU T) as [T1 [T2 [T3 [T4 T5]]]].
   apply roundtrip_of_good.
-  exact (parse_good Sg py_str GC GU T1 T2 T3 T4 T5 (hooks_ok_sound H) (jsize j) j (le_n _) P O V).
+  exact (parse_good Sg py_str NL GC GU T1 T2 T3 T4 T5 (hooks_ok_sound H) (jsize j) j (le_n _) P O V).
 Qed.
 End Covered.
 
 (* ---------------------------------------------------------------- computing the covered part (greatest fixpoint by iteration) *)
 Section Cover.
 Variable Sg : sigma.
+Variable NL : string -> string -> bool.
 Definition shrink (p : list string * list pty) : list string * list pty :=
   let (gc, gu) := p in
   (filter (fun c => match lookup_cls Sg c with Some fs => class_ok Sg gc gu (c, fs) | None => false end) gc,
    filter (fun u => match u with
-                    | PyUnion ms => match lookup_uhook Sg u with Some h => hook_ok Sg gc gu ms h | None => false end
+                    | PyUnion ms => match lookup_uhook Sg u with Some h => hook_ok Sg NL gc gu ms h | None => false end
                     | _ => false end) gu).
 Fixpoint iter_shrink (n : nat) (p : list string * list pty) : list string * list pty :=
   match n with 0 => p | S n => iter_shrink n (shrink p) end.
